@@ -71,7 +71,13 @@ print(f"{name}: confirmed={ok} tests='{res['tests_with_patch']}' demo clean={res
 dst = ROOT / "seeded" / name
 if ok:
     dst.mkdir(parents=True, exist_ok=True)
-    shutil.copy(src / "patch.diff", dst / "patch.diff")
-    shutil.copy(src / "demo.py", dst / "demo.py")
+    if src.resolve() != dst.resolve():
+        shutil.copy(src / "patch.diff", dst / "patch.diff")
+        shutil.copy(src / "demo.py", dst / "demo.py")
+    prev = meta.get("verification") or {}
+    merged = dict(prev.get("checks") or {})
+    merged.update(res["checks"])
+    res["checks"] = merged
+    res["caught_by"] = sorted(p for p, c in merged.items() if c["exit"] == 1)
     meta["verification"] = res
     (dst / "meta.json").write_text(json.dumps(meta, indent=1) + "\n")
